@@ -19,12 +19,21 @@ var c13ReplayPolicy = []NativeReq{
 	{"op": "AllowStyles", "props": []string{"width"}, "kind": "enum", "enum": []string{"1px"}, "scope": "matching", "elre": "-box$"},
 	{"op": "AllowAttrs", "attrs": []string{"style"}, "scope": "globally"},
 	{"op": "flag", "name": "AllowDataAttributes", "val": true},
+	// rule lists that grew by three separate calls have spare capacity (len 3, cap 4)
+	{"op": "AllowAttrs", "attrs": []string{"cls"}, "matching": "^g1$", "scope": "globally"},
+	{"op": "AllowAttrs", "attrs": []string{"cls"}, "matching": "^g2$", "scope": "globally"},
+	{"op": "AllowAttrs", "attrs": []string{"cls"}, "matching": "^g3$", "scope": "globally"},
+	{"op": "AllowAttrs", "attrs": []string{"cls"}, "matching": "^e1$", "elements": []string{"code"}},
+	{"op": "AllowAttrs", "attrs": []string{"cls"}, "matching": "^e2$", "elements": []string{"code"}},
+	{"op": "AllowAttrs", "attrs": []string{"cls"}, "matching": "^e3$", "elements": []string{"code"}},
+	{"op": "AllowAttrs", "attrs": []string{"cls"}, "matching": "^s1$", "elements": []string{"span"}},
 }
 
 var c13Inputs = []string{
 	`<x-box one="1" two="2" style="color: red; width: 1px">a</x-box>`,
 	`<x-one one="1" two="2" style="color: red; width: 1px">b</x-one><y-box one="1" two="2" style="color: red; width: 1px">c</y-box>`,
 	`<a href="http://h/p" rel="x" target="t">l</a><img src="/i" alt="a"><iframe sandbox="allow-forms"></iframe>`,
+	`<code cls="e2">c</code><span cls="s1">s</span><code cls="g3">d</code><span cls="e1">t</span>`,
 }
 
 // C13: a finished policy is deterministic and safe to share.
@@ -45,6 +54,7 @@ func runC13(c *Ctx, ev *Evidence) ([]Violation, error) {
 		{"HarnessC12_forced", sym.Config{Params: map[string]int{"maxAttrs": 2}, SplitMax: 2}},
 		{"HarnessC03_urls", sym.Config{Params: map[string]int{"schemeEntries": 1, "maxAttrs": 1, "onlyPos": 1}}},
 		{"HarnessC10_styles", sym.Config{Params: map[string]int{"maxDecls": 2, "shapeLo": 3}, Stubs: map[string]string{parseDeclsFn: "stubParseDeclarations", removeUnicodeFn: "stubRemoveUnicode"}}},
+		{"HarnessC13_spareCapacity", sym.Config{}},
 		{"HarnessC13_styleOrder", sym.Config{MapOrders: true, Params: map[string]int{"maxDecls": 1}, Stubs: map[string]string{parseDeclsFn: "stubParseDeclarations", removeUnicodeFn: "stubRemoveUnicode"}}},
 	}
 	replayed := false
